@@ -29,6 +29,8 @@ type offHost struct {
 	IsMaster      bool    `json:"ismaster"`
 	ResetupStatus bool    `json:"resetupstatus"`
 	ResetupFresh  bool    `json:"resetupfresh"`
+	StartAgoH     int     `json:"startagoh"` // the server was started this many hours ago
+	StatusOld     bool    `json:"statusold"` // the resetup status was written two hours ago (else now)
 }
 
 type offEvent struct {
@@ -138,10 +140,15 @@ func TestVerifC17(t *testing.T) {
 					for k := 0; k < nrep; k++ {
 						name := all[1+perm[k]]
 						h := offHost{Zone: myZone(name, cfgSep), Lag: lags[rng.Intn(len(lags))], Offline: rng.Intn(3) == 0, Broken: rng.Intn(5) == 0,
-							ResetupStatus: rng.Intn(5) == 0, ResetupFresh: rng.Intn(4) != 0}
+							ResetupStatus: rng.Intn(5) == 0}
+						// freshness = the status was written after THIS server's last start; servers start at different times
+						h.StartAgoH = []int{1, 10}[rng.Intn(2)]
+						h.StatusOld = rng.Intn(3) == 0
+						h.ResetupFresh = !h.StatusOld || h.StartAgoH == 10
 						hs[name] = h
 					}
 					lastAge := []int64{-1, 1000, 200000}[rng.Intn(3)]
+					masterStartIdx := rng.Intn(2)
 					// materialise: tree
 					s.Z.Remove(vNS + "/" + pathRecovery)
 					if masterMarked {
@@ -157,7 +164,7 @@ func TestVerifC17(t *testing.T) {
 							continue
 						}
 						ut := time.Now()
-						if !h.ResetupFresh {
+						if h.StatusOld {
 							ut = time.Now().Add(-2 * time.Hour)
 						}
 						b, _ := json.Marshal(mysql.ResetupStatus{Status: h.ResetupStatus, UpdateTime: ut})
@@ -171,6 +178,10 @@ func TestVerifC17(t *testing.T) {
 						for name, h := range hs {
 							x := s.W.Hosts[name]
 							x.Offline = h.Offline
+							x.StartedAt = time.Now().Add(-time.Duration(h.StartAgoH) * time.Hour)
+							if h.IsMaster {
+								x.StartedAt = time.Now().Add(-time.Duration([]int{30, 20 * 60}[masterStartIdx]) * time.Minute)
+							}
 							ns := &nodestate.NodeState{PingOk: true, IsMaster: h.IsMaster, IsOffline: h.Offline, IsReadOnly: !h.IsMaster || !masterRW}
 							if !h.IsMaster {
 								ns.SlaveState = &nodestate.SlaveState{MasterHost: "m-1", ReplicationState: mysql.ReplicationRunning}
